@@ -1479,3 +1479,227 @@ Section Origin.
     right. apply in_flat_map. exists w. auto.
   Qed.
 End Origin.
+
+(* ================================================================== accepted sets render finitely *)
+
+Lemma bnode_eqb_eq x y : bnode_eqb x y = true <-> x = y.
+Proof.
+  destruct x as [a i], y as [b j]. unfold bnode_eqb. simpl. rewrite andb_true_iff, name_eqb_eq, Nat.eqb_eq.
+  split; [intros [-> ->]; reflexivity | intros [= -> ->]; auto].
+Qed.
+
+Lemma blk_nodes_In lin b l chs : In (b, chs) lin -> l < length chs -> In (b, l) (blk_nodes lin).
+Proof.
+  intros Hin Hl. unfold blk_nodes. apply in_flat_map. exists (b, chs). split; auto.
+  simpl. apply in_map_iff. exists l. split; auto. apply in_seq. lia.
+Qed.
+
+Lemma blk_succ_closed lin x y : In y (blk_succ lin x) -> In y (blk_nodes lin).
+Proof.
+  unfold blk_succ. destruct (mfind (fst x) lin) as [chs|] eqn:E1; [|intros []].
+  destruct (nth_error chs (snd x)) as [ch|] eqn:E2; [|intros []].
+  intros H. apply in_app_or in H. destruct H as [H|H].
+  - apply filter_map_In in H. destruct H as (b & _ & Hb).
+    destruct (mfind b lin) as [[|c cs]|] eqn:E3; try discriminate. injection Hb as <-.
+    eapply blk_nodes_In; [apply mfind_In; eauto|simpl; lia].
+  - destruct (calls_super ch && (S (snd x) <? length chs)) eqn:E3; [|destruct H].
+    destruct H as [<-|[]]. apply andb_true_iff in E3. destruct E3 as [_ E3]. apply Nat.ltb_lt in E3.
+    eapply blk_nodes_In; [apply mfind_In; eauto|exact E3].
+Qed.
+
+Lemma blk_check_all_ok lin todo :
+  blk_check_all lin todo = true ->
+  forall x, In x todo -> exists v, dfs_check bnode_eqb (blk_succ lin) (S (length (blk_nodes lin))) x = Ok v.
+Proof.
+  induction todo as [|y todo IH]; intros H x Hx; simpl in *; [destruct Hx|].
+  destruct (dfs_check bnode_eqb (blk_succ lin) (S (length (blk_nodes lin))) y) as [v|] eqn:E; [|discriminate].
+  destruct Hx as [<-|Hx]; eauto.
+Qed.
+
+Lemma blocks_acyclic_spec lin : blocks_acyclic lin = true -> acyclic (edge (blk_succ lin)).
+Proof.
+  intros H. apply (dfs_spec bnode_eqb (blk_succ lin) bnode_eqb_eq (blk_nodes lin) (blk_succ_closed lin)
+                     (S (length (blk_nodes lin)))); [lia|].
+  apply blk_check_all_ok. exact H.
+Qed.
+
+Lemma resolve_same_keys {V W} pre (m1 : fmap V) (m2 : fmap W) n :
+  mkeys m1 = mkeys m2 -> resolve pre m1 n = resolve pre m2 n.
+Proof.
+  intros Hk.
+  assert (forall k, mmem k m1 = mmem k m2) as Hm.
+  { intros k. destruct (mmem k m1) eqn:E1, (mmem k m2) eqn:E2; auto.
+    - apply mmem_keys in E1. rewrite Hk in E1. apply mmem_keys in E1. congruence.
+    - apply mmem_keys in E2. rewrite <- Hk in E2. apply mmem_keys in E2. congruence. }
+  unfold resolve. rewrite Hm. destruct (mmem n m2); auto.
+  induction pre as [|p pre IH]; simpl; auto. rewrite Hm, IH. reflexivity.
+Qed.
+
+Lemma include_loop_all succ m todo :
+  include_loop succ m todo = Ok tt ->
+  forall n, In n (mkeys todo) -> check_include_cycles succ m n = Ok tt.
+Proof.
+  induction todo as [|[k t] todo IH]; intros H n Hn; simpl in *; [destruct Hn|].
+  destruct (check_include_cycles succ m k) as [[]|] eqn:E; [|discriminate].
+  destruct Hn as [<-|Hn]; auto.
+Qed.
+
+Lemma first_loop_par_keys ev m todo : forall par sz tab par' sz' tab',
+  first_loop ev m todo par sz tab = Ok (par', sz', tab') ->
+  forall n ps, mfind n par' = Some ps -> (exists ps0, mfind n par = Some ps0) \/ In n (mkeys todo).
+Proof.
+  induction todo as [|[k t] todo IH]; intros par sz tab par' sz' tab' H n ps Hf; simpl in H.
+  - injection H as <- <- <-. eauto.
+  - destruct (parents_of (ev_prefixes ev) m k t) as [ps0|]; [|discriminate].
+    destruct (if ev_fix_d10 ev then _ else _); [|discriminate].
+    destruct (add_components _ _ _ _) as [tab1|]; [|discriminate].
+    destruct (IH _ _ _ _ _ _ H n ps Hf) as [[ps1 H1]|H1]; [|simpl; auto].
+    destruct (name_eqb n k) eqn:E.
+    + apply name_eqb_eq in E. subst. simpl. auto.
+    + apply name_eqb_neq in E. rewrite mfind_minsert_other in H1 by exact E. eauto.
+Qed.
+
+Definition linof (tb : fmap (fmap (list chunk))) (k : name) : fmap (list chunk) :=
+  match mfind k tb with Some l => l | None => [] end.
+
+Section Finite.
+  Variable ev : env.
+  Variable sufs : list name.
+  Variable m : smap.
+  Hypothesis m_sorted : msorted m.
+  Hypothesis fix10 : ev_fix_d10 ev = true.
+  Variable tm : tmap.
+  Variable comps : fmap chunk.
+  Hypothesis Hfin : finalize_src ev sufs m = Ok (tm, comps).
+  (* with fixes/D13 applied this is established by finalize itself *)
+  Hypothesis Hblk : forall n e, mfind n tm = Some e -> blocks_acyclic (e_lineage e) = true.
+
+  Let pre := ev_prefixes ev.
+  Let s := {| st_sufs := sufs; st_tpls := tm; st_comps := comps |}.
+
+  Theorem render_fuel_suffices : forall n, render (render_fuel s) pre s n <> ROutOfFuel.
+  Proof.
+    unfold finalize_src in Hfin.
+    destruct (first_loop ev m m [] [] []) as [[[par sz] tab]|] eqn:E1; [|discriminate].
+    rewrite fix10 in Hfin.
+    destruct (include_loop (inc_succ_fixed (ev_prefixes ev) m par) m m) as [[]|] eqn:E2; [|discriminate].
+    destruct (negb _); [discriminate|].
+    destruct (_ && _); [discriminate|].
+    set (tb := fold_left (inherit_one par) (mkeys m)
+                 (map (fun nt : name * tdesc =>
+                         (fst nt, own_lineage m (match mfind (fst nt) par with Some ps => ps | None => [] end) (snd nt))) m)) in *.
+    set (G := fun (k : name) (t : tdesc) =>
+                {| e_desc := t; e_parents := psof par k; e_lineage := linof tb k;
+                   e_size := match mfind k sz with Some z => z | None => 0 end;
+                   e_auto := auto_on sufs k |}).
+    assert (tm = map (fun nt => (fst nt, G (fst nt) (snd nt))) m) as Htm.
+    { injection Hfin as <- _. reflexivity. }
+    clear Hfin.
+    assert (NoDup (mkeys m)) as Hnd by (apply msorted_nodup; auto).
+    assert (forall k, mfind k tm = option_map (G k) (mfind k m)) as Hfind.
+    { intros k. rewrite Htm. apply mfind_map. }
+    assert (mkeys tm = mkeys m) as Hkeys.
+    { rewrite Htm. unfold mkeys. rewrite map_map. reflexivity. }
+    (* parents *)
+    destruct (first_loop_par ev m m [] [] [] par sz tab Hnd E1) as [_ F1].
+    assert (forall n0 ps, mfind n0 par = Some ps -> In n0 (mkeys m)) as Fk.
+    { intros n0 ps Hp. destruct (first_loop_par_keys _ _ _ _ _ _ _ _ _ E1 n0 ps Hp) as [[ps0 H0]|H0]; auto.
+      discriminate. }
+    assert (forall n0 p, In p (psof par n0) -> incl (psof par p) (psof par n0)) as Hchain.
+    { intros n0 p Hp. unfold psof in *. destruct (mfind n0 par) as [ps|] eqn:Ep; [|destruct Hp].
+      destruct (keys_mfind m n0 (Fk _ _ Ep)) as [t Ht].
+      pose proof (mfind_In _ _ _ Ht) as Hin.
+      destruct (F1 _ _ Hin) as (ps' & Hpo & Hpar). fold pre in Hpo. rewrite Ep in Hpar. injection Hpar as <-.
+      destruct (parents_of_sound ev m m_sorted _ _ _ Hin Hpo) as (u & Hpath & _ & _).
+      assert (In p (mkeys m)) as Hpk.
+      { eapply epath_in_keys; eauto. apply in_rev in Hp. exact Hp. }
+      destruct (keys_mfind m p Hpk) as [tp Htp].
+      destruct (parents_chain ev m m_sorted _ _ _ _ _ Hin Hpo Hp Htp) as (ps2 & Hps2 & Hincl).
+      destruct (F1 _ _ (mfind_In _ _ _ Htp)) as (ps3 & Hpo3 & Hpar3). fold pre in Hpo3.
+      rewrite Hpar3. unfold pre in *. assert (ps3 = ps2) as -> by congruence. exact Hincl. }
+    (* lineage chunks come from the chain *)
+    assert (J m par tb) as HJ.
+    { unfold tb. apply fold_inherit_J; auto. apply (tb0_J m par Hnd). }
+    (* the repaired include relation is acyclic *)
+    set (succI := inc_succ_fixed pre m par).
+    assert (acyclic (edge succI)) as HacI.
+    { apply (include_dfs_spec m succI (inc_succ_fixed_closed ev m par)).
+      apply include_loop_all. exact E2. }
+    set (R := rank succI (mkeys m)).
+    set (lin_s := fun v => match mfind v tm with Some e => e_lineage e | None => [] end).
+    assert (forall v b, lineage_of s v b = mfind b (lin_s v)) as Hlin.
+    { intros v b. unfold lineage_of, lin_s. simpl. destruct (mfind v tm); reflexivity. }
+    assert (forall v, acyclic (edge (blk_succ (lin_s v)))) as HacB.
+    { intros v. unfold lin_s. destruct (mfind v tm) as [e|] eqn:Ev.
+      - apply blocks_acyclic_spec. eapply Hblk; eauto.
+      - intros x [l [Hne Hp]]. inversion Hp; subst; [congruence|]. unfold edge, blk_succ in *. simpl in *. tauto. }
+    set (K := fun v => rank (blk_succ (lin_s v)) (blk_nodes (lin_s v))).
+    assert (forall v, length (blk_nodes (lin_s v)) <= max_blk_nodes s) as Hmb.
+    { intros v. unfold lin_s, max_blk_nodes. simpl. destruct (mfind v tm) as [e|] eqn:Ev; [|simpl; lia].
+      apply In_list_max.
+      apply in_map_iff. exists (v, e). split; auto. apply mfind_In. exact Ev. }
+    assert (forall v, lin_s v = [] \/ exists t, mfind v m = Some t /\ lin_s v = linof tb v /\
+                                             parents_s s v = psof par v) as Hls.
+    { intros v. unfold lin_s, parents_s. simpl. rewrite Hfind. destruct (mfind v m) as [t|]; simpl; eauto. }
+    assert (forall v, R v <= S (length tm)) as HRb.
+    { intros v. unfold R.
+      pose proof (rank_bound succI (mkeys m) (inc_succ_fixed_closed ev m par) HacI v) as Hb.
+      rewrite <- Hkeys in Hb at 2. unfold mkeys in Hb at 2. rewrite map_length in Hb. exact Hb. }
+    assert (forall v x, K v x + 2 <= max_blk_nodes s + 3) as HKb.
+    { intros v x. unfold K.
+      pose proof (rank_bound (blk_succ (lin_s v)) (blk_nodes (lin_s v)) (blk_succ_closed _) (HacB v) x).
+      pose proof (Hmb v). lia. }
+    intros n. unfold render.
+    destruct (resolve pre (st_tpls s) n) as [t|] eqn:Er; [|discriminate].
+    destruct (mfind t (st_tpls s)) as [e|] eqn:Et; [|discriminate].
+    apply (exec_terminates pre s R K (S (length tm)) (max_blk_nodes s + 3)).
+    - (* includes in a main chunk of the chain *)
+      intros v w ew i u Hw Hew Hi Hres. change (st_tpls s) with tm in Hew, Hres.
+      apply (rank_decreases succI (mkeys m) (inc_succ_fixed_closed ev m par) HacI).
+      simpl in Hew. rewrite Hfind in Hew. destruct (mfind w m) as [tw|] eqn:Etw; [|discriminate].
+      simpl in Hew. injection Hew as <-. simpl in Hi.
+      rewrite (resolve_same_keys pre tm m i Hkeys) in Hres.
+      apply (chunk_of_chain_followed m par pre v w tw (td_main tw) i u); auto.
+      + destruct Hw as [->|Hw]; [simpl; auto|]. simpl. right.
+        destruct (Hls v) as [_|(t' & _ & _ & Hps)]; [|rewrite <- Hps; exact Hw].
+        unfold parents_s in Hw. simpl in Hw. rewrite Hfind in Hw.
+        destruct (mfind v m); simpl in Hw; [exact Hw|destruct Hw].
+      + unfold td_chunks. simpl. auto.
+    - (* includes in a lineage chunk *)
+      intros v b chs l ch i u Hl Hn Hi Hres. change (st_tpls s) with tm in Hres.
+      apply (rank_decreases succI (mkeys m) (inc_succ_fixed_closed ev m par) HacI).
+      rewrite (resolve_same_keys pre tm m i Hkeys) in Hres.
+      rewrite Hlin in Hl. apply mfind_In in Hl. apply nth_error_In in Hn.
+      destruct (Hls v) as [E0|(t' & Ht' & Elin & _)]; [rewrite E0 in Hl; destruct Hl|].
+      rewrite Elin in Hl. unfold linof in Hl. destruct (mfind v tb) as [lv|] eqn:Etb; [|destruct Hl].
+      destruct (HJ v lv (mfind_In _ _ _ Etb) b chs ch Hl Hn) as (w & Hw & tw & bn & Htw & Hbn).
+      apply (chunk_of_chain_followed m par pre v w tw ch i u); auto.
+      unfold td_chunks. right. apply in_or_app. left. apply in_map_iff. exists (bn, ch). auto.
+    - (* RenderBlock inside a block chunk *)
+      intros v b chs l ch b' chs' Hl Hn Hi Hl' Hne.
+      apply (rank_decreases (blk_succ (lin_s v)) (blk_nodes (lin_s v)) (blk_succ_closed _) (HacB v)).
+      rewrite Hlin in Hl, Hl'. unfold edge, blk_succ. simpl. rewrite Hl, Hn.
+      apply in_or_app. left. apply filter_map_In. exists b'. split.
+      + unfold chunk_blocks. apply in_flat_map. exists (OBlock b'). split; simpl; auto.
+      + rewrite Hl'. destruct chs'; [congruence|reflexivity].
+    - (* super() *)
+      intros v b chs l ch Hl Hn Hi Hlt.
+      apply (rank_decreases (blk_succ (lin_s v)) (blk_nodes (lin_s v)) (blk_succ_closed _) (HacB v)).
+      rewrite Hlin in Hl. unfold edge, blk_succ. simpl. rewrite Hl, Hn.
+      apply in_or_app. right.
+      assert (calls_super ch = true) as ->.
+      { unfold calls_super. apply existsb_exists. exists OSuper. auto. }
+      apply Nat.ltb_lt in Hlt. rewrite Hlt. simpl. auto.
+    - exact HRb.
+    - exact HKb.
+    - (* the first frame: the root ancestor's main chunk under the template itself *)
+      simpl. simpl in Et. unfold parents_s. simpl. rewrite Et.
+      destruct (e_parents e) as [|r rest]; simpl; auto.
+    - lia.
+    - unfold render_fuel, frame_span.
+      pose proof (mu_bound R K (S (length tm)) (max_blk_nodes s + 3) HRb HKb 0
+                    (FMain t match e_parents e with r :: _ => r | [] => t end)) as Hmu.
+      unfold span in Hmu. simpl st_tpls.
+      replace (length tm + 2) with (S (length tm) + 1) by lia. exact Hmu.
+  Qed.
+End Finite.
